@@ -406,7 +406,7 @@ def make_service(rng, ty, dev, idx):
             inst = "@" + name                            # empty MAC part, no pk (or an empty one)
             if rng.random() < 0.3:
                 chunks.append(["pk", ""])
-        elif rng.random() < 0.8:
+        elif rng.random() < 0.8 or "@" in name:     # (a bare instance name "a@b" would be split into id "a", name "b")
             inst = did.replace(":", "") + "@" + name
         else:
             chunks.append(["pk", hx(did + "pk")])
